@@ -1063,7 +1063,13 @@ def op_transform(ctx, rng, old, which=None):
               mech=f"{op}:connectivity-changed", **info)
     if not okp:
         return None
-    valid = check_valid(ctx, op, new, need_measure=(A is not None and old.order == 1 and factor != 0))
+    # cell-wise non-degeneracy is demanded when the image is exact in floating point; after an inexact map a cell
+    # whose corner Jacobian is ~0 (e.g. produced by an earlier smoothing) may flip by rounding: dropped, the
+    # coordinates (checked above) and the total measure (checked below, relative) are the oracle there
+    valid = check_valid(ctx, op, new, need_measure=(A is not None and old.order == 1 and factor != 0 and exact))
+    if valid and A is not None and old.order == 1 and not exact and own_validity(new, need_measure=True):
+        ctx.drop("inexact-transform-of-a-nearly-degenerate-cell")
+        return None
     if A is not None and valid:
         _same_measure(ctx, op, old, new, info, factor=factor, exact=exact)
         if exact:
